@@ -33,6 +33,10 @@ def build_target(spec):
         return mod
     if spec['kind'] == 'mm':
         return mm_skeleton(spec['text'], spec['target'])
+    if spec['kind'] == 'k':
+        from sim.engines import c20
+        c20.warmup_imports()
+        return c20.build_pe(spec['scenario'])
     raise ValueError(spec['kind'])
 
 
